@@ -41,6 +41,8 @@ type dirFaults struct {
 	Hold   float64 `json:"hold"`
 	Budget int     `json:"budget"` // max number of random faults
 	Replay float64 `json:"replay"` // probability of re-injecting an old data segment later (stale replay)
+	Coalesce float64 `json:"coalesce"` // peer-like: deliver a data segment, then the next one merged with it (partial overlap)
+	Beyond   float64 `json:"beyond"`   // peer-like: also hand over a fabricated segment starting at the receiver's advertised right edge
 }
 
 type app struct {
@@ -101,6 +103,26 @@ type side struct {
 	cfg   app
 	iss   uint32
 	haveI bool
+	// what this side advertised last (raw), and the window scale option of its SYN (-1: none)
+	wsOpt  int
+	advAck uint32
+	advWnd uint16
+	advOK  bool
+	advSyn bool
+}
+
+var epMu sync.Mutex
+
+func (s *side) getEp() tcpip.Endpoint {
+	epMu.Lock()
+	defer epMu.Unlock()
+	return s.ep
+}
+
+func (s *side) setEp(ep tcpip.Endpoint, wq *waiter.Queue) {
+	epMu.Lock()
+	s.ep, s.wq = ep, wq
+	epMu.Unlock()
 }
 
 type frameQ struct {
@@ -177,6 +199,13 @@ func (p *pair) decode(f wire.Frame, s, peer *side) (M, uint8, int) {
 	}
 	if t.Flags&wire.SYN != 0 && !s.haveI {
 		s.iss, s.haveI = t.Seq, true
+		s.wsOpt = -1
+		if t.Opts.HasWS {
+			s.wsOpt = int(t.Opts.WS)
+		}
+	}
+	if t.Flags&wire.ACK != 0 && t.Flags&wire.RST == 0 {
+		s.advAck, s.advWnd, s.advOK, s.advSyn = t.Ack, t.Window, true, t.Flags&wire.SYN != 0
 	}
 	ev := M{"e": s.name, "flags": flagStr(t.Flags), "len": len(t.Payload), "wnd": int(t.Window),
 		"sumok": t.SumOK && ipok, "optok": t.Opts.WellOK, "iplen": len(f.Bytes)}
@@ -236,7 +265,62 @@ func (p *pair) tap(s, peer *side, dir int) func(*wire.Link, wire.Frame) {
 }
 
 // deliver runs one direction of the wire.
+// rebuild makes a new TCP segment for the same connection as template frame tf: sequence number seq, payload pl, flags fl
+// (addresses, ports, ack, window and options of the template); used for the wire's peer-like transformations.
+func rebuild(tf wire.Frame, seq uint32, fl uint8, pl []byte) (wire.Frame, bool) {
+	var src, dst, l4 []byte
+	v6 := tf.Proto == wire.ProtoIPv6
+	if v6 {
+		ip, err := wire.ParseIPv6(tf.Bytes)
+		if err != nil {
+			return tf, false
+		}
+		src, dst, l4 = ip.Src, ip.Dst, ip.Payload
+	} else {
+		ip, err := wire.ParseIPv4(tf.Bytes)
+		if err != nil {
+			return tf, false
+		}
+		src, dst, l4 = ip.Src, ip.Dst, ip.Payload
+	}
+	t, err := wire.ParseTCP(src, dst, l4)
+	if err != nil {
+		return tf, false
+	}
+	seg := wire.BuildTCP(src, dst, wire.TCPFields{SrcPort: t.SrcPort, DstPort: t.DstPort, Seq: seq, Ack: t.Ack, Flags: fl, Window: t.Window,
+		Opts: append([]byte{}, t.RawOpts...)}, pl)
+	nf := tf
+	if v6 {
+		nf.Bytes = wire.BuildIPv6(src, dst, 6, seg, 64)
+	} else {
+		nf.Bytes = wire.BuildIPv4(src, dst, 6, seg, wire.IPv4Opts{ID: 0x7777})
+	}
+	return nf, true
+}
+
+func tcpOf(f wire.Frame) (wire.TCP, bool) {
+	if f.Proto == wire.ProtoIPv6 {
+		ip, err := wire.ParseIPv6(f.Bytes)
+		if err != nil {
+			return wire.TCP{}, false
+		}
+		t, err := wire.ParseTCP(ip.Src, ip.Dst, ip.Payload)
+		return t, err == nil
+	}
+	ip, err := wire.ParseIPv4(f.Bytes)
+	if err != nil {
+		return wire.TCP{}, false
+	}
+	t, err := wire.ParseTCP(ip.Src, ip.Dst, ip.Payload)
+	return t, err == nil
+}
+
 func (p *pair) deliver(dir int, to *side, df dirFaults, seed int64) {
+	from := p.a
+	if to == p.a {
+		from = p.b
+	}
+	var merge *frameQ // a delivered data frame waiting to be coalesced with the next contiguous one
 	r := rand.New(rand.NewSource(seed))
 	counts := map[string]int{}
 	budget := df.Budget
@@ -260,9 +344,16 @@ func (p *pair) deliver(dir int, to *side, df dirFaults, seed int64) {
 			return
 		default:
 		}
+		if p.sc.Sync && (ev["kind"] == "data" || ev["kind"] == "fin") {
+			// the accepted endpoint becomes known to the harness when Accept returns: hold post-handshake frames until then,
+			// otherwise they could not be delivered in lockstep
+			for i := 0; i < 4000 && to.getEp() == nil; i++ {
+				time.Sleep(500 * time.Microsecond)
+			}
+		}
 		p.log.add(ev)
 		to.link.Inject(q.f.Proto, q.f.Bytes, "")
-		if p.sc.Sync && to.ep != nil {
+		if p.sc.Sync && to.getEp() != nil {
 			// synchronous wire: do not hand over the next frame before this one has been processed
 			// (segment queue empty, protocol goroutine idle), so that log order = causal order
 			for i := 0; i < 20000; i++ {
@@ -306,6 +397,24 @@ func (p *pair) deliver(dir int, to *side, df dirFaults, seed int64) {
 			kind, _ := q.info["kind"].(string)
 			counts[kind]++
 			counts["any"]++
+			if merge != nil && kind == "data" {
+				t1, ok1 := tcpOf(merge.f)
+				t2, ok2 := tcpOf(q.f)
+				m := merge
+				merge = nil
+				if ok1 && ok2 && t2.Seq == t1.Seq+uint32(len(t1.Payload)) {
+					pl := append(append([]byte{}, t1.Payload...), t2.Payload...)
+					if nf, ok := rebuild(q.f, t1.Seq, t2.Flags, pl); ok {
+						info, _, _ := p.decode(nf, from, to)
+						info["ev"], info["fabricated"] = "emit", "coalesced"
+						_ = m
+						inject(frameQ{nf, info}, "coalesced")
+						atomic.AddInt64(&p.infl, -1)
+						release(false)
+						continue
+					}
+				}
+			}
 			act, arg := "", 0
 			for _, ru := range df.Rules {
 				in := func(c int) bool {
@@ -325,6 +434,10 @@ func (p *pair) deliver(dir int, to *side, df dirFaults, seed int64) {
 					act = "dup"
 				case x < df.Loss+df.Dup+df.Hold:
 					act, arg = "hold", 1+r.Intn(4)
+				case x < df.Loss+df.Dup+df.Hold+df.Coalesce && kind == "data":
+					act = "coalesce"
+				case x < df.Loss+df.Dup+df.Hold+df.Coalesce+df.Beyond && kind == "data":
+					act, arg = "beyond", 1+r.Intn(40)
 				}
 				if act != "" {
 					budget--
@@ -342,6 +455,41 @@ func (p *pair) deliver(dir int, to *side, df dirFaults, seed int64) {
 			case "dup":
 				inject(q, "pass")
 				inject(q, "dup")
+				atomic.AddInt64(&p.infl, -1)
+			case "coalesce":
+				// behave like a peer that merges segments on retransmission: this data frame is delivered now, and the
+				// next contiguous data frame will be delivered as ONE segment covering both (a partial overlap at the receiver)
+				inject(q, "pass")
+				atomic.AddInt64(&p.infl, -1)
+				qq := q
+				merge = &qq
+			case "beyond":
+				// behave like a peer that ignores the window: a fabricated data segment that starts exactly at the right
+				// edge the receiver advertised last (correct stream bytes) is handed to the receiver, THEN this frame
+				if to.advOK && from.haveI {
+					scale := uint(0)
+					if !to.advSyn && to.wsOpt >= 0 && from.wsOpt >= 0 {
+						scale = uint(to.wsOpt)
+					}
+					edge := to.advAck + uint32(to.advWnd)<<scale
+					off := int(int32(edge - from.iss - 1))
+					n := arg
+					if n <= 0 {
+						n = 5
+					}
+					if off >= 0 && to.advWnd > 0 {
+						pl := make([]byte, n)
+						for i := range pl {
+							pl[i] = Byte(from.d, off+i)
+						}
+						if nf, ok := rebuild(q.f, edge, wire.ACK|wire.PSH, pl); ok {
+							info, _, _ := p.decode(nf, from, to)
+							info["ev"], info["fabricated"] = "emit", "beyond-window"
+							inject(frameQ{nf, info}, "beyond")
+						}
+					}
+				}
+				inject(q, "pass")
 				atomic.AddInt64(&p.infl, -1)
 			case "hold":
 				holds = append(holds, held{q, arg})
@@ -540,7 +688,7 @@ func runPair(sc scenario) []M {
 	go p.deliver(0, p.b, sc.A2B, sc.Seed*7+1)
 	go p.deliver(1, p.a, sc.B2A, sc.Seed*7+2)
 	rs := M{"ev": "reset", "tag": sc.Tag, "mtu": int(mtu), "v": sc.V, "sack": sc.SACK, "cc": sc.CC,
-		"rcvbuf_a": sc.A.RcvBuf, "rcvbuf_b": sc.B.RcvBuf, "seed": int(sc.Seed)}
+		"rcvbuf_a": sc.A.RcvBuf, "rcvbuf_b": sc.B.RcvBuf, "seed": int(sc.Seed), "sync": sc.Sync}
 	for k, v := range sc.Flags {
 		rs[k] = v
 	}
@@ -634,7 +782,7 @@ func runPair(sc scenario) []M {
 	for {
 		ep, wq, aerr := lep.Accept()
 		if aerr == nil {
-			p.b.ep, p.b.wq = ep, wq
+			p.b.setEp(ep, wq)
 			break
 		}
 		if aerr != tcpip.ErrWouldBlock {
